@@ -765,3 +765,261 @@ Proof.
   rewrite set_focus_events; [| intro C; rewrite C in Hin; contradiction | lia].
   cbn [fst items focus_raw]. apply index_from_nth in Hj. replace (j - 0) with j in Hj by lia. exact Hj.
 Qed.
+
+(* ---------- the focus follows its item: slices with any step ---------- *)
+Lemma in_range_norm x s0 e0 t0 s e t :
+  t0 <> 0 -> norm_range s0 e0 t0 = (s, e, t) -> in_range x s0 e0 t0 = in_range x s e t.
+Proof.
+  unfold norm_range. intros Ht0 H.
+  destruct (t0 <? 0) eqn:Hneg.
+  - assert (Ht0n : t0 < 0) by lia. pose proof (range_len_nonneg s0 e0 t0 Ht0) as Hnn.
+    destruct (range_len s0 e0 t0 =? 0) eqn:Hlen; injection H as <- <- <-.
+    + rewrite in_range_neg_empty by lia. unfold in_range.
+      assert (Hp : (0 <? - t0) = true) by lia. rewrite Hp.
+      destruct (s0 <=? x) eqn:?, (x <? s0) eqn:?; cbn [andb]; try reflexivity; lia.
+    + apply in_range_neg_norm; lia.
+  - injection H as <- <- <-. unfold in_range. assert (Hp : (0 <? t0) = true) by lia. rewrite Hp.
+    destruct (s0 <=? x) eqn:?, (x <? e0) eqn:?, (x <? Z.max s0 e0) eqn:?; cbn [andb]; try reflexivity; lia.
+Qed.
+
+Lemma range_len_norm_eq s0 e0 t0 s e t :
+  t0 <> 0 -> norm_range s0 e0 t0 = (s, e, t) -> range_len s e t = range_len s0 e0 t0.
+Proof.
+  unfold norm_range. intros Ht0 H.
+  destruct (t0 <? 0) eqn:Hneg.
+  - assert (Ht0n : t0 < 0) by lia. pose proof (range_len_nonneg s0 e0 t0 Ht0) as Hnn.
+    destruct (range_len s0 e0 t0 =? 0) eqn:Hlen; injection H as <- <- <-.
+    + unfold range_len at 1. assert (Hp : (0 <? - t0) = true) by lia. rewrite Hp.
+      assert (Hc : (s0 <? s0) = false) by lia. rewrite Hc. lia.
+    + apply range_len_norm; lia.
+  - injection H as <- <- <-. unfold range_len. assert (Hp : (0 <? t0) = true) by lia. rewrite Hp.
+    destruct (s0 <? e0) eqn:H1.
+    + replace (Z.max s0 e0) with e0 by lia. rewrite H1. reflexivity.
+    + replace (Z.max s0 e0) with s0 by lia. assert (Hc : (s0 <? s0) = false) by lia. rewrite Hc. reflexivity.
+Qed.
+
+Definition next_kept (f e t : Z) : Z := if t =? 1 then e else f + 1.
+
+Lemma in_range_t1 x s e : in_range x s e 1 = (s <=? x) && (x <? e).
+Proof.
+  unfold in_range. change (0 <? 1) with true. cbv iota. rewrite Z.mod_1_r.
+  change (0 =? 0) with true. rewrite andb_true_r. reflexivity.
+Qed.
+
+Lemma next_kept_not_in_range f s e t : 0 < t -> in_range f s e t = true -> in_range (next_kept f e t) s e t = false.
+Proof.
+  intros Ht Hin. unfold next_kept. destruct (t =? 1) eqn:Ht1.
+  - assert (t = 1) by lia. subst t. rewrite in_range_t1. lia.
+  - unfold in_range in *. assert (Hp : (0 <? t) = true) by lia. rewrite Hp in *.
+    apply andb_true_iff in Hin. destruct Hin as [Hin Hm]. apply Z.eqb_eq in Hm.
+    assert (H1 : (f + 1 - s) mod t = 1).
+    { replace (f + 1 - s) with ((f - s) + 1) by lia. rewrite Z.add_mod by lia. rewrite Hm.
+      rewrite Z.add_0_l. rewrite Z.mod_mod by lia. apply Z.mod_small. lia. }
+    rewrite H1. change (1 =? 0) with false. apply andb_false_r.
+Qed.
+
+(* the focus arithmetic for a deletion, in terms of the ascending range (s,e,t):
+   F = g - (number of removed positions below g), g = the focus or the next kept position *)
+Lemma adjust_core_delete s e t f :
+  0 < t -> s <= e ->
+  (if t =? 1 then
+     if e <=? (if (s + 0 <=? f) && (f <? e) then e else f)
+     then (if (s + 0 <=? f) && (f <? e) then e else f) + (0 - (e - s))
+     else if (s + 0 <=? f) && (f <? e) then e else f
+   else if 0 =? 0 then
+     (if in_range f s e t then f + 1 else f) -
+     range_len s (Z.min (if in_range f s e t then f + 1 else f) e) t
+   else f)
+  = let g := if in_range f s e t then next_kept f e t else f in g - range_len s (Z.min g e) t.
+Proof.
+  intros Ht Hse. cbv zeta. unfold next_kept.
+  destruct (t =? 1) eqn:Ht1.
+  - assert (t = 1) by lia. subst t. rewrite in_range_t1. replace (s + 0) with s by lia.
+    destruct ((s <=? f) && (f <? e)) eqn:Hc.
+    + assert (Hc2 : (e <=? e) = true) by lia. rewrite Hc2. rewrite range_len_1. lia.
+    + rewrite range_len_1. destruct (e <=? f) eqn:Hc2; lia.
+  - change (0 =? 0) with true. cbv iota. reflexivity.
+Qed.
+
+Lemma nthz_some_lt {A} (l : list A) i v : nthz l i = Some v -> 0 <= i < zlen l.
+Proof.
+  unfold nthz. destruct (i <? 0) eqn:Hi; [discriminate|]. intros H.
+  assert (Hn : nth_error l (Z.to_nat i) <> None) by congruence.
+  apply nth_error_Some in Hn. unfold zlen. lia.
+Qed.
+
+Lemma nthz_lt_some {A} (l : list A) i : 0 <= i < zlen l -> exists v, nthz l i = Some v.
+Proof.
+  intros H. unfold nthz. assert (Hi : (i <? 0) = false) by lia. rewrite Hi.
+  destruct (nth_error l (Z.to_nat i)) eqn:E; [eauto|].
+  apply nth_error_None in E. unfold zlen in H. lia.
+Qed.
+
+Theorem focus_tracks_delete_any_step s a b st s0 e0 t0 sn en tn :
+  Valid s -> items s <> [] -> step_is_zero st = false ->
+  slice_indices (zlen (items s)) a b st = (s0, e0, t0) -> t0 <> 1 ->
+  norm_range s0 e0 t0 = (sn, en, tn) ->
+  let l := items s in let f := focus_raw s in
+  let l' := items (fst (step s (DelSlice a b st))) in
+  let f' := focus_raw (fst (step s (DelSlice a b st))) in
+  l' = drop_range 0 sn en tn l /\
+  (l' <> [] ->
+   (in_range f sn en tn = false -> nthz l' f' = nthz l f) /\
+   (in_range f sn en tn = true ->
+      if next_kept f en tn <? zlen l then nthz l' f' = nthz l (next_kept f en tn)
+      else f' = zlen l' - 1)).
+Proof.
+  intros Hv Hne Hz Hs Ht1 Hnr. cbv zeta.
+  pose proof (zlen_nonneg (items s)) as Hn.
+  assert (Hfr : 0 <= focus_raw s < zlen (items s)).
+  { destruct Hv as [[He _]|Hr]; [congruence | exact Hr]. }
+  pose proof (slice_indices_step _ _ _ _ _ _ _ Hs Hz) as Ht0.
+  destruct (norm_range_props _ _ _ _ _ _ Hnr Ht0) as (Htn & Hse & Hs1 & Hs2).
+  { intro Hp. destruct (slice_indices_pos _ _ _ _ _ _ _ Hn Hs Hp). lia. }
+  { intro Hq. destruct (slice_indices_neg _ _ _ _ _ _ _ Hn Hs Hq). lia. }
+  (* upper end of the ascending range is inside the list *)
+  assert (Hen : en <= zlen (items s)).
+  { unfold norm_range in Hnr. destruct (t0 <? 0) eqn:Hneg.
+    - destruct (slice_indices_neg _ _ _ _ _ _ _ Hn Hs ltac:(lia)) as [Hsr Her].
+      destruct (range_len s0 e0 t0 =? 0); injection Hnr as <- <- <-; lia.
+    - destruct (slice_indices_pos _ _ _ _ _ _ _ Hn Hs ltac:(lia)) as [Hsr Her].
+      injection Hnr as <- <- <-. lia. }
+  pose proof (step_sound s (DelSlice a b st) Hv) as [_ Hout]. unfold outcome_ok in Hout.
+  cbn [step list_step] in *. rewrite Hz in *.
+  assert (Hdel : del_slice (items s) a b st = Ok (drop_range 0 sn en tn (items s))).
+  { unfold del_slice. rewrite Hz, Hs. assert (Hc : (t0 =? 1) = false) by lia. rewrite Hc.
+    f_equal. apply drop_range_ext. intro x. apply in_range_norm; assumption. }
+  rewrite Hdel in *. destruct Hout as [Hi He]. split; [exact Hi|]. rewrite Hi. intros Hne'.
+  rewrite (finish_focus s _ _ Hne' He).
+  rewrite adjust_focus_gen_spec. unfold adjust_spec. rewrite Hs, Hnr.
+  rewrite (adjust_core_delete sn en tn (focus_raw s) Htn Hse). cbv zeta.
+  pose proof (range_len_norm_eq _ _ _ _ _ _ Ht0 Hnr) as Hrl.
+  assert (Hlen' : zlen (drop_range 0 sn en tn (items s)) = zlen (items s) - range_len s0 e0 t0).
+  { exact (zlen_del_slice _ _ _ _ _ _ _ _ Hdel Hs). }
+  assert (Hcnt0 : range_len sn (Z.min 0 en) tn = 0).
+  { unfold range_len. assert (Hp : (0 <? tn) = true) by lia. rewrite Hp.
+    destruct (sn <? Z.min 0 en) eqn:Hc; [|reflexivity]. exfalso.
+    destruct (Z.eq_dec sn (-1)) as [Hm|Hm]; [specialize (Hs2 Hm)|]; lia. }
+  (* position of a kept index g in the new list *)
+  assert (Hpos : forall g, 0 <= g -> in_range g sn en tn = false ->
+            nthz (drop_range 0 sn en tn (items s)) (g - range_len sn (Z.min g en) tn) = nthz (items s) g).
+  { intros g Hg Hgr. pose proof (nthz_drop_range (items s) sn en tn Htn 0 g Hg Hgr) as P.
+    rewrite Hcnt0 in P. replace (g - 0 - (range_len sn (Z.min g en) tn - 0)) with (g - range_len sn (Z.min g en) tn) in P by lia.
+    replace (g - 0) with g in P by lia. exact P. }
+  split.
+  - intros Hin. rewrite Hin.
+    pose proof (Hpos (focus_raw s) ltac:(lia) Hin) as P.
+    destruct (nthz_lt_some (items s) (focus_raw s) Hfr) as [v Hv'].
+    rewrite Hv' in P. pose proof (nthz_some_lt _ _ _ P) as Hb. rewrite Hlen' in Hb.
+    rewrite Z.min_l by lia. rewrite P, Hv'. reflexivity.
+  - intros Hin. rewrite Hin.
+    pose proof (next_kept_not_in_range _ _ _ _ Htn Hin) as Hnk.
+    set (g := next_kept (focus_raw s) en tn) in *.
+    assert (Hg0 : 0 <= g).
+    { unfold g, next_kept. destruct (tn =? 1); [|lia].
+      unfold in_range in Hin. assert (Hp : (0 <? tn) = true) by lia. rewrite Hp in Hin. lia. }
+    assert (Hgn : g <= zlen (items s)).
+    { unfold g, next_kept. destruct (tn =? 1); lia. }
+    destruct (g <? zlen (items s)) eqn:Hgl.
+    + pose proof (Hpos g Hg0 Hnk) as P.
+      destruct (nthz_lt_some (items s) g ltac:(lia)) as [v Hv'].
+      rewrite Hv' in P. pose proof (nthz_some_lt _ _ _ P) as Hb. rewrite Hlen' in Hb.
+      rewrite Z.min_l by lia. rewrite P, Hv'. reflexivity.
+    + assert (g = zlen (items s)) by lia.
+      assert (Hge : Z.min g en = en) by lia. rewrite Hge, Hrl, Hlen'. lia.
+Qed.
+
+Theorem focus_tracks_assign_extended s a b st xs s0 e0 t0 :
+  Valid s -> items s <> [] -> step_is_zero st = false ->
+  slice_indices (zlen (items s)) a b st = (s0, e0, t0) -> t0 <> 1 ->
+  o_err (snd (step s (SetSlice a b st xs))) = None ->
+  let l := items s in let f := focus_raw s in
+  let l' := items (fst (step s (SetSlice a b st xs))) in
+  let f' := focus_raw (fst (step s (SetSlice a b st xs))) in
+  (* an extended-slice assignment replaces items in place: the focus index never moves *)
+  f' = f /\ (in_range f s0 e0 t0 = false -> nthz l' f' = nthz l f).
+Proof.
+  intros Hv Hne Hz Hs Ht1 Herr. cbv zeta.
+  pose proof (zlen_nonneg (items s)) as Hn.
+  assert (Hfr : 0 <= focus_raw s < zlen (items s)).
+  { destruct Hv as [[He _]|Hr]; [congruence | exact Hr]. }
+  pose proof (slice_indices_step _ _ _ _ _ _ _ Hs Hz) as Ht0.
+  pose proof (step_sound s (SetSlice a b st xs) Hv) as [_ Hout]. unfold outcome_ok in Hout.
+  cbn [step list_step] in *. rewrite Hz in *.
+  unfold set_slice in Hout. rewrite Hz, Hs in Hout. assert (Hc : (t0 =? 1) = false) by lia. rewrite Hc in Hout.
+  destruct (zlen xs =? range_len s0 e0 t0) eqn:Hlen.
+  2:{ destruct Hout as (_ & He & _). unfold set_slice in Herr. rewrite Hz, Hs, Hc, Hlen in Herr.
+      cbn in Herr. discriminate. }
+  assert (Hset : set_slice (items s) a b st xs = Ok (put_range 0 s0 e0 t0 xs (items s))).
+  { unfold set_slice. rewrite Hz, Hs, Hc, Hlen. reflexivity. }
+  rewrite Hset in *. destruct Hout as [Hi He]. rewrite Hi.
+  assert (Hne' : put_range 0 s0 e0 t0 xs (items s) <> []).
+  { intro C. apply (f_equal zlen) in C. rewrite zlen_put_range in C. cbn in C. lia. }
+  rewrite (finish_focus s _ _ Hne' He).
+  assert (Hf : adjust_focus_gen (zlen (items s)) (focus_raw s) a b st (zlen xs) = focus_raw s).
+  { rewrite adjust_focus_gen_spec. unfold adjust_spec. rewrite Hs.
+    destruct (norm_range s0 e0 t0) as [[sn en] tn] eqn:Hnr.
+    destruct (norm_range_props _ _ _ _ _ _ Hnr Ht0) as (Htn & Hse & Hs1 & Hs2).
+    { intro Hp. destruct (slice_indices_pos _ _ _ _ _ _ _ Hn Hs Hp). lia. }
+    { intro Hq. destruct (slice_indices_neg _ _ _ _ _ _ _ Hn Hs Hq). lia. }
+    pose proof (range_len_norm_eq _ _ _ _ _ _ Ht0 Hnr) as Hrl.
+    assert (Hk : zlen xs = range_len s0 e0 t0) by lia. rewrite Hk.
+    replace (zlen (items s) + range_len s0 e0 t0 - range_len s0 e0 t0 - 1) with (zlen (items s) - 1) by lia.
+    destruct (tn =? 1) eqn:Htn1.
+    - assert (tn = 1) by lia. subst tn. rewrite range_len_1 in Hrl.
+      destruct ((sn + range_len s0 e0 t0 <=? focus_raw s) && (focus_raw s <? en)) eqn:Hcc; [lia|].
+      destruct (en <=? focus_raw s) eqn:Hc2; lia.
+    - destruct (range_len s0 e0 t0 =? 0) eqn:Hk0; [|lia].
+      assert (Hemp : range_len sn en tn = 0) by lia.
+      assert (Hir : in_range (focus_raw s) sn en tn = false).
+      { unfold in_range. assert (Hp : (0 <? tn) = true) by lia. rewrite Hp.
+        unfold range_len in Hemp. rewrite Hp in Hemp.
+        destruct (sn <? en) eqn:Hlt.
+        - assert (0 <= (en - sn - 1) / tn) by (apply Z.div_pos; lia). lia.
+        - destruct (sn <=? focus_raw s) eqn:?, (focus_raw s <? en) eqn:?; cbn [andb]; try reflexivity; lia. }
+      rewrite Hir.
+      pose proof (range_len_le sn (Z.min (focus_raw s) en) tn Htn) as Hle.
+      pose proof (range_len_nonneg sn (Z.min (focus_raw s) en) tn ltac:(lia)) as Hge.
+      assert (Hz0 : range_len sn (Z.min (focus_raw s) en) tn = 0).
+      { unfold range_len in *. assert (Hp : (0 <? tn) = true) by lia. rewrite Hp in *.
+        destruct (sn <? en) eqn:Hlt.
+        - assert (0 <= (en - sn - 1) / tn) by (apply Z.div_pos; lia). lia.
+        - assert (Hc3 : (sn <? Z.min (focus_raw s) en) = false) by lia. rewrite Hc3. reflexivity. }
+      lia. }
+  rewrite Hf. split; [reflexivity|]. intros Hin.
+  pose proof (nthz_put_range (items s) xs s0 e0 t0 0 (focus_raw s) ltac:(lia) Hin) as P.
+  replace (focus_raw s - 0) with (focus_raw s) in P by lia. exact P.
+Qed.
+
+(* every successful operation belongs to one of the families the tracking theorems cover *)
+Theorem tracking_families_exhaustive l o l' :
+  list_step l o = Ok l' ->
+  splice_of l o <> None \/ o = Reverse \/ (exists rv, o = Sort rv) \/ (exists i, o = SetFocus i) \/
+  (exists a b st, (o = DelSlice a b st \/ exists xs, o = SetSlice a b st xs) /\
+                  step_is_zero st = false /\ snd (slice_indices (zlen l) a b st) <> 1).
+Proof.
+  destruct o as [y|i x|a b st|a b st xs|i x|x|xs|y|x| |rv|xs|k| |i]; cbn [list_step splice_of]; intros H.
+  - left. unfold del_index in H. destruct (index_ok _ _); [discriminate|discriminate].
+  - left. unfold set_index in H. destruct (index_ok _ _); [discriminate|discriminate].
+  - unfold del_slice in H. destruct (step_is_zero st) eqn:Hz; [discriminate|].
+    destruct (slice_indices (zlen l) a b st) as [[s0 e0] t0] eqn:Hs.
+    destruct (t0 =? 1) eqn:Ht.
+    + left. discriminate.
+    + right. right. right. right. exists a, b, st. rewrite Hs. cbn [snd]. split; [left; reflexivity|]. split; [exact Hz|lia].
+  - unfold set_slice in H. destruct (step_is_zero st) eqn:Hz; [discriminate|].
+    destruct (slice_indices (zlen l) a b st) as [[s0 e0] t0] eqn:Hs.
+    destruct (t0 =? 1) eqn:Ht.
+    + left. discriminate.
+    + right. right. right. right. exists a, b, st. rewrite Hs. cbn [snd]. split; [right; eauto|]. split; [exact Hz|lia].
+  - left. discriminate.
+  - left. discriminate.
+  - left. discriminate.
+  - left. unfold pop in H. destruct (index_ok _ _); [discriminate|discriminate].
+  - left. unfold remove_val in H. destruct (index_of l x); [discriminate|discriminate].
+  - right. left. reflexivity.
+  - right. right. left. eauto.
+  - left. discriminate.
+  - left. destruct (0 <? k); discriminate.
+  - left. discriminate.
+  - right. right. right. left. eauto.
+Qed.
